@@ -38,6 +38,11 @@ EXTRA_SCOPES = {
     "C18": ["util/indexer/src/"],
     "C09": ["freezer/src/"],
     "C07": ["verification/contextual/src/contextual_block_verifier.rs", "chain/src/tests/"],
+    # files outside the listed anchors in which round-3 seeds broke the property (the commit position the pool verifies for, the store's
+    # MMR node reader and its caches, the filter's element collector)
+    "C13": ["tx-pool/src/process.rs", "tx-pool/src/util.rs"],
+    "C19": ["store/src/store.rs", "store/src/cache.rs", "util/types/src/utilities/block_filter.rs"],
+    "C01": ["chain/src/lib.rs"],
 }
 EXCLUDE = re.compile(r"/generated/|/tests/|/tests\.rs$|_test(s)?\.rs$|/benches/|/examples/")
 
